@@ -481,10 +481,110 @@ def check_C07(tier):
     return rc
 
 
+def check_C08(tier):
+    t0 = time.time()
+    cases = L.family_cases(tier)
+    obs_path = L.observe(cases, "dfa,part", "part-" + tier)
+    obs = L.read_ndjson(obs_path)
+    by_id = {o["id"]: o for o in obs}
+    out, stats = C.tlc("PartCheck.tla", "PartCheck.cfg", env={"OBS": obs_path}, timeout=3000, java_opts=["-Xmx12g"])
+    if not stats["ok"]:
+        C.log(stats.get("tail", ""))
+        raise C.ToolError("TLC did not complete on PartCheck")
+    recs = C.tlc_records(out)
+    v = C.Verdict("C08")
+    entered = [r["id"] for r in recs if r["t"] == "IN"]
+    witness = {}
+    n = 0
+    for r in recs:
+        if r["t"] != "DISAGREE":
+            continue
+        n += 1
+        o = by_id[r["id"]]
+        v.disagree(r, "%r partitions into prefix %r and postfix %r; path %r: %s" % (
+            L.expr_of(o), C.text(o["part"]["prefix"]), C.text(o["part"]["post"]) if o["part"]["has_post"] else None, C.text(r["path"]), r["what"]))
+        witness.setdefault(r["id"], r)
+    if not entered:
+        raise C.ToolError("vacuous run: no case entered the product")
+    n_replayed = replay_paths(by_id, [{"id": i, "path": r["path"]} for i, r in witness.items()]) if witness else 0
+    n_replayed += replay_table_sample(by_id, entered, "C08")
+    with_prefix = [i for i in entered if by_id[i]["part"]["prefix"]]
+    samples = [{"expression": L.expr_of(by_id[i]), "prefix": C.text(by_id[i]["part"]["prefix"]), "postfix": C.text(by_id[i]["part"]["post"]) if by_id[i]["part"]["has_post"] else None}
+               for i in random.Random(C.SEED).sample(with_prefix, min(6, len(with_prefix)))]
+    rc = v.finish()
+    C.write_evidence("C08", tier, "model_checking", {
+        "states": stats["distinct"], "transitions": stats["generated"],
+        "traces_validated_against_impl": n_replayed,
+        "samples": samples,
+        "evaluations": len(cases), "distinct_nontrivial": len(set(with_prefix)),
+        "rule": "cases = lexeme families %s; every built glob is partitioned by the real code; non-trivial = the partition has a non-empty prefix" % (L.TIERS[tier],),
+        "globs_in_product": len(set(entered)),
+        "disagreements": n, "known_findings_hit": sorted(v.findings), "exhaustive": True,
+    }, time.time() - t0, len(v.violations), TRUSTED_LANG + ["Path::components() of the prefix is evaluated by the harness (std is the oracle the statement names) and logged"])
+    return rc
+
+
+def check_C18(tier):
+    t0 = time.time()
+    n = 3 if tier == "quick" else 4
+    texts = [t for t in L.gen_family("esc", n)]
+    if tier == "quick":
+        rnd = random.Random(C.SEED)
+        more = L.gen_family("esc", 4)
+        texts = texts + [t for t in more if len(t) == 4 and rnd.random() < 0.08]
+    else:
+        rnd = random.Random(C.SEED)
+        syms = sorted({c for t in texts for c in t})
+        texts = texts + [[rnd.choice(syms) for _ in range(rnd.randint(5, 9))] for _ in range(20000)]
+    # the property excludes two adjacent separators (and backslashes, which the family does not contain)
+    def ok(t):
+        return not any(t[i] == 47 and t[i + 1] == 47 for i in range(len(t) - 1))
+    texts = [t for t in texts if ok(t)]
+    cases = []
+    for t in texts:
+        sigma = sorted(set(t) | {97, 47, 92})
+        cases.append({"id": len(cases) + 1, "kind": "escape", "fam": "esc", "s": t, "sigma": sigma})
+    obs_path = L.observe(cases, "dfa", "esc-" + tier)
+    obs = L.read_ndjson(obs_path)
+    by_id = {o["id"]: o for o in obs}
+    out, stats = C.tlc("EscapeCheck.tla", "EscapeCheck.cfg", env={"OBS": obs_path}, timeout=3000, java_opts=["-Xmx12g"])
+    if not stats["ok"]:
+        C.log(stats.get("tail", ""))
+        raise C.ToolError("TLC did not complete on EscapeCheck")
+    recs = C.tlc_records(out)
+    if any(r["t"] == "SPEC" for r in recs):
+        raise C.ToolError("the specification's Escape does not read back on some case")
+    v = C.Verdict("C18")
+    entered = [r["id"] for r in recs if r["t"] == "IN"]
+    nd = 0
+    for r in recs:
+        if r["t"] == "DISAGREE":
+            nd += 1
+            o = by_id[r["id"]]
+            v.disagree(r, "escape(%r) = %r: %s (path %r)" % (C.text(o["s"]), C.text(o.get("escaped", [])), r["what"], C.text(r["path"])))
+    if not entered:
+        raise C.ToolError("vacuous run")
+    samples = [{"text": C.text(o["s"]), "escaped": C.text(o["escaped"]), "glob_text": C.text(o["q"]["text"]) if o.get("q") else None}
+               for o in sample_cases(obs, 6, lambda o: any(c in (42, 63, 91, 123) for c in o["s"]))]
+    # the real engine on the text itself was recorded (is_match_s); bind tables on seeded paths
+    usable = [o["id"] for o in obs if o["outcome"] == "ok" and o["dfa"]["ok"]]
+    n_replayed = len(usable) + replay_table_sample(by_id, usable, "C18", per_case=2, max_cases=1500)
+    rc = v.finish()
+    C.write_evidence("C18", tier, "model_checking", {
+        "states": stats["distinct"], "transitions": stats["generated"],
+        "traces_validated_against_impl": n_replayed,
+        "samples": samples,
+        "evaluations": len(cases), "distinct_nontrivial": sum(1 for o in obs if o.get("escaped") and o["escaped"] != o["s"]),
+        "rule": "texts = every string up to %d characters over the 13 meta-characters, - ! / a and a 2-byte letter without two adjacent separators%s; non-trivial = escaping changes the text" % (n, " plus a seeded 8%% sample of length 4" if tier == "quick" else " plus 20000 seeded strings of length 5-9"),
+        "disagreements": nd, "known_findings_hit": sorted(v.findings), "exhaustive": True,
+    }, time.time() - t0, len(v.violations), TRUSTED_LANG[:1] + ["the alphabet of candidate paths of a case is the characters of its text plus a letter, a separator and a backslash"])
+    return rc
+
+
 def depths_of(tier):
     return [10, 50, 100, 130, 300, 1000, 3000] + ([20000] if tier == "thorough" else [])
 
 
-CHECKS = {"C01": check_C01, "C05": check_C05, "C06": check_C06, "C07": check_C07, "C17": check_C17}
+CHECKS = {"C01": check_C01, "C05": check_C05, "C06": check_C06, "C07": check_C07, "C08": check_C08, "C17": check_C17, "C18": check_C18}
 for _p in QUERY:
     CHECKS[_p] = (lambda p: (lambda tier: query_check(p, tier)))(_p)
